@@ -1,4 +1,3 @@
-//verif:race
 // C10 — hierarchical CAS: an object is visible exactly under the instance
 // subtree of its uploaders.
 //
@@ -8,6 +7,8 @@
 // operation the whole (name x object) universe is probed: soundness (served or
 // reported present => visible) always; completeness (visible => served) in
 // eviction-free runs (no block popped, no index discard reported).
+//
+//verif:race
 package main
 
 import (
@@ -29,10 +30,10 @@ func main() {
 	run.Main(run.Spec{
 		Property: "C10",
 		Level:    "exploration",
-		Rule: "case = hierarchical store configuration (eviction-free: roomy blocks and index; rotating: small blocks) x history of Put under PRNG-chosen instance names (valid content, wrong bytes, short content, source error; new digests and digests that already exist under other names), Get, FindMissing and filler uploads over a name universe with string-but-not-component prefixes; after every operation the whole name x object universe is probed. Concurrent group: 2-6 clients upload/read the same digests under unrelated names with yields in sources and device I/O; " +
+		Rule: "case = hierarchical store configuration (eviction-free: roomy blocks and index; rotating: small blocks) x history of Put under PRNG-chosen instance names (valid content, wrong bytes, short content, source error; new digests and digests that already exist under other names), Get, FindMissing and filler uploads over a name universe with string-but-not-component prefixes; after every operation the whole name x object universe is probed. Group config: the same soundness probes against the CAS built by NewBlobAccessFromConfiguration (hierarchical local store bare and behind existence caching). Concurrent group: 2-6 clients upload/read the same digests under unrelated names with yields in sources and device I/O; " +
 			"distinct = hash of (configuration, sequence of (op, name, mode)); non-trivial = at least one probe under a name that is a string-prefix relative but not a component-prefix relative of an uploader",
 		Workers:     12,
-		Floors:      map[string]int64{"probes": 50000, "probes_served": 5000, "probes_denied_with_object_elsewhere": 5000, "non_component_prefix_probes": 2000, "reuploads_invalid": 200, "reuploads_valid": 200, "completeness_checks": 3000, "refresh_events": 100, "conc_histories": 60},
+		Floors:      map[string]int64{"probes": 50000, "probes_served": 5000, "probes_denied_with_object_elsewhere": 5000, "non_component_prefix_probes": 2000, "reuploads_invalid": 200, "reuploads_valid": 200, "completeness_checks": 3000, "refresh_events": 100, "conc_histories": 60, "config_histories": 60, "config_probes_denied_with_object_elsewhere": 1000},
 		Assumptions: []string{"completeness is asserted only while the model saw no block pop and the index reported no discard"},
 		Race:        true,
 		Body:        body,
@@ -69,6 +70,7 @@ func body(w *run.Worker) {
 	ctx := context.Background()
 	w.Cases("seq", w.N(300, 15000), func(c *run.Case) { seq(ctx, w, c) })
 	w.Cases("conc", w.N(120, 4000), func(c *run.Case) { conc(ctx, w, c) })
+	w.Cases("config", w.N(120, 4000), func(c *run.Case) { configured(ctx, w, c) })
 }
 
 func mkCfg(r *gen.Rng, evictionFree bool) asm.Config {
